@@ -425,13 +425,14 @@ Proof.
   intros Hf Hn H. destruct e; simpl in H; try discriminate.
   all: fut_fields r; case_hyp H; inv_some H; simpl.
   all: unfold f_holds, f_upd, f_rel, f_store; simpl.
+  all: unfold finv in Hf; simpl in Hf.
   all: repeat match goal with
-              | x : fword |- _ => destruct x
-              | x : ppc |- _ => destruct x
-              | x : apc |- _ => destruct x
-              | x : fkind |- _ => destruct x
-              | x : option nat |- _ => destruct x
-              | x : bool |- _ => destruct x
+              | x : fword |- _ => destruct x; simpl in Hf; try discriminate Hf
+              | x : ppc |- _ => destruct x; simpl in Hf; try discriminate Hf
+              | x : apc |- _ => destruct x; simpl in Hf; try discriminate Hf
+              | x : fkind |- _ => destruct x; simpl in Hf; try discriminate Hf
+              | x : option nat |- _ => destruct x; simpl in Hf; try discriminate Hf
+              | x : bool |- _ => destruct x; simpl in Hf; try discriminate Hf
               end; simpl in *; try discriminate.
   all: try (eexists; split; [left; reflexivity|]; simpl; bsimp; split_and; subst; try discriminate;
             repeat split; try reflexivity; try discriminate; auto; fail).
@@ -570,18 +571,18 @@ Proof.
   split; [exact C|]. split; [exact F|]. split.
   { unfold Wpart; simpl. rewrite upd_length. split; [|split; auto].
     intros w0 r0 Hn0. destruct (Nat.eq_dec w0 w) as [->|Hne].
-    - erewrite nth_upd_same in Hn0; eauto. inv_some Hn0. exact Hd.
+    - rewrite (nth_upd_same _ _ _ _ Hn) in Hn0. inv_some Hn0. exact Hd.
     - rewrite nth_upd_other in Hn0; auto. rewrite Ha, Ho, Hi by auto. apply W1; auto. }
   unfold Rpart; simpl. rewrite upd_length.
   destruct Hr as [[-> Hrc]|(-> & Hrc & Hall)].
   - split; [exact R1|]. split; [exact R2|]. split; [exact R3|]. split; [|exact R5].
     intros w0 r0 Hn0. destruct (Nat.eq_dec w0 w) as [->|Hne].
-    + erewrite nth_upd_same in Hn0; eauto. inv_some Hn0. rewrite Hrc. apply R4; auto.
+    + rewrite (nth_upd_same _ _ _ _ Hn) in Hn0. inv_some Hn0. rewrite Hrc. apply R4; auto.
     + rewrite nth_upd_other in Hn0; auto.
   - split; [|split; [exact R2|split; [exact R3|split]]].
     + intros Hb. apply Forall_app_one; auto. destruct (gb_all_zero _ G Hall Hb). split; simpl; auto.
     + intros w0 r0 Hn0. rewrite relcount_app. simpl. destruct (Nat.eq_dec w0 w) as [->|Hne].
-      * erewrite nth_upd_same in Hn0; eauto. inv_some Hn0. rewrite Hrc, Nat.eqb_refl. rewrite (R4 _ _ Hn). simpl. lia.
+      * rewrite (nth_upd_same _ _ _ _ Hn) in Hn0. inv_some Hn0. rewrite Hrc, Nat.eqb_refl. rewrite (R4 _ _ Hn). simpl. lia.
       * rewrite nth_upd_other in Hn0; auto. rewrite (R4 _ _ Hn0).
         replace (Nat.eqb w w0) with false; [simpl; lia|]. symmetry. apply Nat.eqb_neq. auto.
     + intros x Hx. apply in_app_or in Hx. destruct Hx as [Hx|[<-|[]]]; auto.
